@@ -32,7 +32,7 @@ func init() {
 		Quick: 6000, Thorough: 600000,
 		Run:        runC07,
 		Rule:       "one run = one generated (type, value) whose encoding E decodes; evaluations = individual faulted decodes: every prefix of E (exhaustive), 6 byte substitutions at every offset (all offsets up to 512 bytes, sampled beyond), every length prefix at every nesting level inflated to 13 values in minimal and padded form, every varint re-encoded over-long, wire-type swaps of every declared field, a foreign field of each wire type and of 3 undeclared numbers inserted at every field boundary of every nesting level, decodes into a different type, random strings. non-trivial = E has at least 2 bytes; distinct = distinct hash of (type, E)",
-		FaultKinds: []string{"tear(prefix)", "rot(byte-substitution)", "length-inflation", "overlong-varint", "overflow-varint(10th byte > 1)", "wire-type-swap", "foreign-field:varint", "foreign-field:fixed64", "foreign-field:varlen", "foreign-field:fixed32", "foreign-field-nested-level", "cross-type-decode", "random-bytes", "scaling-probe(n vs 8n elements)", "cut-inside-length-prefix", "cut-inside-embedded-message"},
+		FaultKinds: []string{"tear(prefix)", "rot(byte-substitution)", "length-inflation", "overlong-varint", "overflow-varint(10th byte > 1)", "wire-type-swap", "foreign-field:varint", "foreign-field:fixed64", "foreign-field:varlen", "foreign-field:fixed32", "foreign-field-nested-level", "cross-type-decode", "random-bytes", "scaling-probe(n vs 8n elements)", "deep-nesting-probe", "cut-inside-length-prefix", "cut-inside-embedded-message"},
 		ProbeNames: []string{"messages", "roundtrip-precondition-failed(skipped)", "scan-checked", "scan-vs-skip-checked", "alloc-precise-samples", "levels>1", "torn-input-accepted-as-value", "torn-input-rejected", "rot-accepted", "rot-rejected", "inflated-rejected", "E>=128B", "E>=1KiB"},
 		Real:       []string{"proto.Unmarshal, proto.Parse, proto.Scan, RawValue methods compiled from /repo's working tree with sync and sync/atomic redirected to the shim (deterministic simulated sync.Pool, pristine library state before every run)"},
 		Model:      []string{"storage/transport medium: fault operators over the encoded bytes", "reference protobuf wire parser and schema walker (verifsim/ref) used to locate lengths, varints and field boundaries and to build foreign fields"},
@@ -53,6 +53,9 @@ type c07Scenario struct {
 	// Base, when present, is the unfaulted encoding: the decode of Input must
 	// succeed and equal the decode of Base (foreign-field oracle).
 	Base []byte `json:"base,omitempty"`
+	// SameScan: Input and Base differ in the spelling of a varint only; the oracle
+	// is the Scan-versus-Unmarshal one (same fields enumerated, same outcome).
+	SameScan bool `json:"same_scan,omitempty"`
 }
 
 var allocSample = []metrics.Sample{{Name: "/gc/heap/allocs:bytes"}}
@@ -165,6 +168,41 @@ func (c *c07Ctx) decode(in []byte, op string) (reflect.Value, error, bool) {
 		}
 	}
 	return x, err, true
+}
+
+// sameScan reports whether proto.Scan enumerates the same fields for a and b:
+// numbers, wire types, and values (varints by value, the rest by content).
+func sameScan(a, b []byte) bool {
+	type fld struct {
+		n  proto.FieldNumber
+		t  proto.WireType
+		v  uint64
+		bs string
+	}
+	scan := func(in []byte) (out []fld, ok bool) {
+		err, pan := scanNoPanic(in, func(n proto.FieldNumber, t proto.WireType, v proto.RawValue) (bool, error) {
+			f := fld{n: n, t: t}
+			if t == proto.Varint {
+				f.v = v.Varint()
+			} else {
+				f.bs = string(v)
+			}
+			out = append(out, f)
+			return true, nil
+		})
+		return out, err == nil && pan == ""
+	}
+	fa, ok1 := scan(a)
+	fb, ok2 := scan(b)
+	if !ok1 || !ok2 || len(fa) != len(fb) {
+		return false
+	}
+	for i := range fa {
+		if fa[i] != fb[i] {
+			return false
+		}
+	}
+	return true
 }
 
 // parseChain calls proto.Parse on b, then on the remainder it returned, until
@@ -354,6 +392,12 @@ func runC07(r *core.Run) {
 				r.Fail("foreign-field", "base-encoding-rejected", "the unfaulted encoding of the scenario is rejected: %v", err0)
 				return
 			}
+			if sc.SameScan {
+				if (err != nil || !reflect.DeepEqual(x.Interface(), y.Interface())) && sameScan(sc.Base, sc.Input) {
+					r.Fail("scan-mismatch", "unmarshal-consumes-other-fields-than-scan", "Scan enumerates the same top-level fields for input and base; Unmarshal decodes the base and returns err=%v / another value for the input", err)
+				}
+				return
+			}
 			if err != nil {
 				r.Fail("foreign-field", "foreign-field-rejected", "input with a foreign field is rejected: %v", err)
 			} else if !reflect.DeepEqual(x.Interface(), y.Interface()) {
@@ -368,6 +412,11 @@ func runC07(r *core.Run) {
 
 	if t.Chance(1, 60) {
 		if !c07Scaling(r) {
+			return
+		}
+	}
+	if t.Chance(1, 80) {
+		if !c07Deep(r) {
 			return
 		}
 	}
@@ -514,10 +563,22 @@ func runC07(r *core.Run) {
 				continue
 			}
 			m := splice(e, s.off, s.n, enc)
-			if _, _, ok := c.decode(m, "overlong-varint"); !ok {
+			x, err, ok := c.decode(m, "overlong-varint")
+			if !ok {
 				return
 			}
 			r.Fault("overlong-varint")
+			// "Scan enumerates exactly the top-level fields that Unmarshal consumes":
+			// when Scan enumerates for m the very fields it enumerates for E (same
+			// numbers, wire types and values — an over-long varint is another
+			// spelling of the same number), Unmarshal, consuming those fields, cannot
+			// end otherwise than it does on E
+			if len(enc) <= 10 && !protoOpaque(ty.rt) && ty.rt.Kind() == reflect.Struct && (err != nil || !reflect.DeepEqual(x.Interface(), base.Interface())) && sameScan(e, m) {
+				r.ScenarioOut = c07ScenarioFor(ty, m, e)
+				r.ScenarioOut.(*c07Scenario).SameScan = true
+				r.Fail("scan-mismatch", "unmarshal-consumes-other-fields-than-scan", "Scan enumerates the same top-level fields (numbers, wire types, values) for both inputs, which differ in the spelling of one varint (%d bytes instead of %d at offset %d); Unmarshal decodes the first and returns err=%v / another value for the second (type %s)\ninput=%x\nbase=%x", len(enc), s.n, s.off, err, c.ty.name, clip(m, 300), clip(e, 300))
+				return
+			}
 		}
 		// 10-byte forms whose last byte overflows 64 bits
 		for _, last := range []byte{0x02, 0x7f} {
@@ -738,6 +799,58 @@ func c07Scaling(r *core.Run) bool {
 	}
 	if a8 > 16*a1+1<<20 {
 		r.Fail("allocation", "alloc-superlinear", "proto.Unmarshal of %s: %d elements (%d bytes) allocate %d bytes, %d elements (%d bytes) allocate %d bytes: 8 times the input costs %.1f times the memory (bound 16x + 1 MiB)", p.name, n, len(small), a1, 8*n, len(big), a8, float64(a8)/float64(a1+1))
+		return false
+	}
+	return true
+}
+
+// c07Deep: a message nested hundreds to thousands of levels deep (PNode.Next
+// inside PNode.Next ...), sound all the way down or defective only at the
+// bottom: no panic, and the memory bound of the statement — also for the
+// errors that travel back up through every level.
+func c07Deep(r *core.Run) bool {
+	t := r.T
+	depth := []int{300, 1000, 2500, 4000}[t.Intn(4)]
+	var bottoms = [][]byte{
+		{0x08, 0x05},       // sound: A = 5
+		{0x0d, 1, 2, 3, 4}, // field 1 with wire type fixed32 instead of varint
+		{0x08, 0x80},       // varint cut by the innermost window
+		{0x0b},             // wire type 3 (group start): unknown
+		{0x12, 0x05, 0x08}, // nested length exceeding its window
+		{0x08, 0xff, 0xff, 0xff, 0xff, 0xff, 0xff, 0xff, 0xff, 0xff, 0x7f}, // overflowing varint
+	}
+	bottom := bottoms[t.Intn(len(bottoms))]
+	msg := append([]byte(nil), bottom...)
+	for i := 0; i < depth; i++ {
+		// field 2 (Next), length-delimited
+		hdr := ref.AppendUvarint([]byte{0x12}, uint64(len(msg)), 0)
+		msg = append(hdr, msg...)
+	}
+	rt := reflect.TypeOf(PNode{})
+	warmProto(rt)
+	x := reflect.New(rt)
+	before := totalAlloc()
+	err, pan := unmarshalNoPanic(msg, x.Interface())
+	d := totalAlloc() - before
+	r.Evaluations++
+	r.Fault("deep-nesting-probe")
+	if pan != "" {
+		r.Fail("panic", "unmarshal-panic:"+panicSite(pan), "proto.Unmarshal panicked on a message nested %d levels deep (bottom %x): %s", depth, bottom, pan)
+		return false
+	}
+	if d > 1<<20+1024*uint64(len(msg)) {
+		r.Fail("allocation", "alloc-unbounded:deep-nesting", "proto.Unmarshal allocated %d bytes for a %d-byte message nested %d levels deep whose innermost level is %x (err=%v) (bound 1 MiB + 1024 x len)", d, len(msg), depth, bottom, clipStr(fmt.Sprint(err), 200))
+		return false
+	}
+	var none struct{}
+	errSkip, pan1 := unmarshalNoPanic(msg, &none)
+	errScan, pan2 := scanNoPanic(msg, func(proto.FieldNumber, proto.WireType, proto.RawValue) (bool, error) { return true, nil })
+	if pan1 != "" || pan2 != "" {
+		r.Fail("panic", "scan-or-skip-panic:"+panicSite(pan1+pan2), "Scan / Unmarshal into an empty struct panicked on a message nested %d levels deep: %s%s", depth, pan1, pan2)
+		return false
+	}
+	if (errSkip == nil) != (errScan == nil) {
+		r.Fail("scan-mismatch", "scan-vs-unmarshal-acceptance", "deeply nested message: Scan returns %v, Unmarshal into a struct that declares no field returns %v", errScan, errSkip)
 		return false
 	}
 	return true
